@@ -71,7 +71,15 @@ def check(ctx: Ctx, pid: str) -> None:
     scns = special_scenarios() + [qos.gen_scenario(rng) for _ in range(n)]
     import logging  # noqa: PLC0415
     logging.disable(logging.CRITICAL)
-    impl = [qos.run_impl(s) for s in scns]
+    impl, wedged = [], 0
+    for s in scns:
+        if wedged >= 2:      # the loop keeps getting blocked: do not spend the budget waiting
+            scns = scns[: len(impl)]
+            ctx.notes.append("run stopped after two wedged scenarios")
+            break
+        r = qos.run_impl(s)
+        wedged += 1 if r[3].get("wedged") else 0
+        impl.append(r)
     for s, (tr, st, qs, info) in zip(scns, impl):
         nontriv = any(e[0] == 1 for e in tr)
         ctx.case(("scn", repr(s["events"]), repr(s["cmds"]), repr(s["plan"]), s["lifo"], s["mode"]), nontriv,
@@ -98,7 +106,10 @@ def check(ctx: Ctx, pid: str) -> None:
                 tr, st, qs, _ = impl[k + j]
                 i = qos.canon_impl(tr, st, qs)
                 total += 1
-                if (m[0], m[1], m[2]) != (i[0], i[1], i[2]) or not m[3]:
+                if impl[k + j][3].get("wedged"):
+                    bad += 1
+                    first = first or f"scenario {k + j}: the implementation blocked the event loop"
+                elif (m[0], m[1], m[2]) != (i[0], i[1], i[2]) or not m[3]:
                     bad += 1
                     if not first:
                         s = scns[k + j]
@@ -125,6 +136,10 @@ def oracle(ctx: Ctx, pid: str, s, tr, st, qs, info) -> None:
     case = {"events": s["events"], "cmds": cmds, "plan": s["plan"], "default_plan": s["default_plan"], "lifo": s["lifo"],
             "mode": s["mode"], "trace": tr}
     slow = any(p["lat"] > 0 for p in s["plan"]) or s["default_plan"]["lat"] > 0
+    if info.get("wedged"):
+        ctx.violation("event-loop-wedged", "the send machinery blocked the event loop (no progress for 20 s of wall time): every caller hangs",
+                      {k: case[k] for k in ("events", "cmds", "plan", "default_plan", "lifo", "mode")}, "schedule")
+        return
 
     if pid == "C07":
         for i, t0 in calls.items():
